@@ -322,7 +322,7 @@ def run_cli(desc, root, rec):
     snap.delta()
     plan = wire.Plan(desc.get("faults"))
     ctl = LocalCtl(rec, snap, plan)
-    ctx = seams.Ctx(root, ctl, cpu_count=desc.get("cpu_count", 2), dir_rng=random.Random(H(desc.get("dirsalt", 0), "dir", "main")))
+    ctx = seams.Ctx(root, ctl, cpu_count=desc.get("cpu_count", 2), dir_rng=desc.get("dirsalt", 0))
     decider = Decider(desc.get("sched_seed", 0), desc.get("decisions"), desc.get("policy"))
     simpool.SIM = simpool.SimState(desc=desc, rec=rec, snap=snap, plan=plan, decider=decider, root=root)
 
